@@ -1,6 +1,9 @@
 From Coq Require Import Extraction ExtrOcamlBasic ZArith NArith.
 From Elk Require Import Model.C01_Core.
+From Elk Require Model.C15_Gen.
+From Elk Require Import Model.C01_Proto.
 Extraction Language OCaml.
 Extraction Blacklist List String Int.  (* keep OCaml Stdlib.List visible to ocaml/common/zio.ml *)
-Separate Extraction run wt no_narrowed_local_assigned_in_closure_or_loop mk_ty elk_run elk_step e_new
+Separate Extraction C01_Core.run wt no_narrowed_local_assigned_in_closure_or_loop mk_ty elk_run elk_step e_new
+  C01_Proto.run_ops C01_Proto.wt_ops C01_Proto.kind_of C01_Proto.step C15_Gen.gen_init C15_Gen.mkFunc
   Z.to_N N.add Z.of_nat Z.to_nat.
